@@ -73,7 +73,7 @@ func divisorShapes() []*big.Int {
 }
 
 func C02(r *eng.Run) {
-	r.Rule = "bounded-exhaustive product: coefficient shapes K x K (x small integers 1..N, x long-division divisor shapes) x 4 sign combinations x {Mul,Quo} x 6 modes at mid-range, every leading-digit prefix and word-threshold coefficient against a reduced alphabet, dropped-digit steering (A*(10^j+1), A*2^j, A/2^-j with A's low digits set to every sticky-tail pattern), the operation-sequence closure of C01, " +
+	r.Rule = "bounded-exhaustive product: coefficient shapes K x K (x small integers 1..N, x long-division divisor shapes) x 4 sign combinations x {Mul,Quo} x 6 modes at mid-range, every leading-digit prefix and word-threshold coefficient against a reduced alphabet, binary-limit digit prefixes times powers of ten at every product magnitude (three splits each), dropped-digit steering (A*(10^j+1), A*2^j, A/2^-j with A's low digits set to every sticky-tail pattern), the operation-sequence closure of C01, " +
 		"plus every result decade in windows around the underflow (1e-6215..1e-6170) and overflow (1e6140..1e6185) thresholds, zero/special operands and the DefaultRoundingMode sweep; " +
 		"oracle = exact big-integer product / rational quotient rounded by the specification (tiny rule, overflow rule). Cells as in C01."
 	r.Assumptions = []string{"binary codec is the identity on bits (checked at start; decided by C12)",
@@ -122,6 +122,51 @@ func C02(r *eng.Run) {
 		cl.flush(w)
 	})
 	r.Phase("A1b lead sweep", t0, nil)
+
+	// A1c: binary-limit digit prefixes at every decimal magnitude of the product: p*10^i x m*10^j for every total
+	// scaling i+j (three splits each), m in {1,2,5}. The word tests of the multi-word helpers sit at fixed binary
+	// positions (2^64, 2^128, 2^192 times 10, 100, 1000, 10000), so a product must be placed just below and just
+	// above each of them whatever power of ten that takes (round-4 change C20-7: top word exactly 10000).
+	t0 = time.Now()
+	lps := LimitPrefixes()
+	r.Bounds["limit_prefix_products"] = len(lps)
+	r.Par(len(lps), func(w *eng.W, i int) {
+		cl := &rcells{}
+		p := bi(lps[i])
+		L := len(lps[i])
+		if L > 35 {
+			return
+		}
+		for k := 0; k <= 69-L; k++ {
+			lo := k - 34 // smallest padding of p so that the other factor 10^(k-i) keeps <= 35 digits
+			if lo < 0 {
+				lo = 0
+			}
+			hi := 35 - L
+			if hi > k {
+				hi = k
+			}
+			if lo > hi {
+				continue
+			}
+			for _, pad := range []int{lo, (lo + hi) / 2, hi} {
+				a := new(big.Int).Mul(p, ref.Pow10(pad))
+				if a.Cmp(ref.Cmax) > 0 {
+					continue
+				}
+				for _, m := range []int64{1, 2, 5} {
+					b := new(big.Int).Mul(big.NewInt(m), ref.Pow10(k-pad))
+					if b.Cmp(ref.Cmax) > 0 {
+						continue
+					}
+					mulQuoPair(w, cl, a, 0, b, -k, []arithOp{opMul})
+					mulQuoPair(w, cl, b, 3, a, 0, []arithOp{opMul})
+				}
+			}
+		}
+		cl.flush(w)
+	})
+	r.Phase("A1c limit prefixes at every product magnitude", t0, nil)
 
 	// A2: small integer multipliers/divisors: exact ties, terminating and repeating quotients
 	t0 = time.Now()
